@@ -858,6 +858,102 @@ fn account_run(a: &[&str]) -> String {
     )
 }
 
+/// account_batch <variant 0 original refund|1 bottlenose refund|2 abort> <n buckets 1..3> <res b0> <res b1> <res b2>
+///               <pref r0> <pref r1> <pref r2> <default rule> <vault r0> <vault r1> <vault r2> <badge given> <badge kind>
+///               <badge id> <badge listed> <proven>
+/// Same construction as account_run for the batch variants. Prints
+/// `<none|some|err> <number of vault puts> <asserted> <rule ok> <returned buckets are the input in order 0|1>`.
+fn account_batch(a: &[&str]) -> String {
+    use radix_common::prelude::*;
+    use radix_engine::blueprints::account::*;
+    use radix_engine_interface::blueprints::account::*;
+    use radix_engine_interface::blueprints::resource::*;
+    let n = |t: &str| -> i64 { t.parse().unwrap() };
+    let v: Vec<i64> = a.iter().map(|t| n(t)).collect();
+    let (variant, nb) = (v[0], v[1] as usize);
+    let bres = &v[2..5];
+    let pref = &v[5..8];
+    let rule = v[8];
+    let vault = &v[9..12];
+    let (bgiven, bkind, bid, listed, proven) = (v[12], v[13], v[14], v[15], v[16]);
+    let other_fungible = {
+        let mut b = [3u8; NodeId::LENGTH];
+        b[0] = EntityType::GlobalFungibleResourceManager as u8;
+        ResourceAddress::new_or_panic(b)
+    };
+    let res = |r: i64| match r {
+        0 => XRD,
+        1 => other_fungible,
+        _ => ACCOUNT_OWNER_BADGE,
+    };
+    let mk = |b: u8| {
+        let mut x = [b; NodeId::LENGTH];
+        x[0] = EntityType::InternalGenericComponent as u8;
+        NodeId(x)
+    };
+    let badge = |kind: i64, id: i64| {
+        if kind == 0 {
+            ResourceOrNonFungible::NonFungible(NonFungibleGlobalId::new(IDENTITY_OWNER_BADGE, NonFungibleLocalId::integer(id as u64)))
+        } else {
+            ResourceOrNonFungible::Resource(res(id))
+        }
+    };
+    let mut api = mock_api::MockApi::default();
+    api.defaults.insert(RESOURCE_MANAGER_CREATE_EMPTY_VAULT_IDENT.to_string(), scrypto_encode(&Own(mk(60))).unwrap());
+    api.defaults.insert(VAULT_PUT_IDENT.to_string(), scrypto_encode(&()).unwrap());
+    api.defaults.insert(AUTH_ZONE_ASSERT_ACCESS_RULE_IDENT.to_string(), scrypto_encode(&()).unwrap());
+    let rule_v = match rule {
+        0 => DefaultDepositRule::Accept,
+        1 => DefaultDepositRule::Reject,
+        _ => DefaultDepositRule::AllowExisting,
+    };
+    AccountBlueprint::set_default_deposit_rule(rule_v, &mut api).unwrap();
+    for r in 0..3i64 {
+        if pref[r as usize] != 0 {
+            let p = if pref[r as usize] == 1 { ResourcePreference::Allowed } else { ResourcePreference::Disallowed };
+            AccountBlueprint::set_resource_preference(res(r), p, &mut api).unwrap();
+        }
+        if vault[r as usize] == 1 {
+            api.outer_objects.insert(mk(70 + r as u8), res(r).into());
+            AccountBlueprint::deposit(Bucket(Own(mk(70 + r as u8))), &mut api).unwrap();
+        }
+    }
+    if listed == 1 {
+        AccountBlueprint::add_authorized_depositor(badge(bkind, bid), &mut api).unwrap();
+    }
+    AccountBlueprint::add_authorized_depositor(badge(0, 77), &mut api).unwrap();
+    if proven == 0 {
+        api.fail_methods.insert(AUTH_ZONE_ASSERT_ACCESS_RULE_IDENT.to_string());
+    }
+    api.calls.clear();
+    let mut buckets = vec![];
+    for j in 0..nb {
+        api.outer_objects.insert(mk(50 + j as u8), res(bres[j]).into());
+        buckets.push(Bucket(Own(mk(50 + j as u8))));
+    }
+    let input: Vec<NodeId> = buckets.iter().map(|b| b.0 .0).collect();
+    let named = if bgiven == 1 { Some(badge(bkind, bid)) } else { None };
+    let outcome = match variant {
+        0 => AccountBlueprint::try_deposit_batch_or_refund(buckets, named.clone(), &mut api),
+        1 => AccountBlueprintBottlenoseExtension::try_deposit_batch_or_refund(buckets, named.clone(), &mut api),
+        _ => AccountBlueprint::try_deposit_batch_or_abort(buckets, named.clone(), &mut api).map(|_| None),
+    };
+    let puts = api.calls.iter().filter(|c| c.1 == VAULT_PUT_IDENT).count();
+    let asserted: Vec<_> = api.calls.iter().filter(|c| c.1 == AUTH_ZONE_ASSERT_ACCESS_RULE_IDENT).collect();
+    let rule_ok = asserted.iter().all(|c| {
+        let input: AuthZoneAssertAccessRuleInput = scrypto_decode(&c.2).unwrap();
+        named.as_ref().map_or(false, |b| {
+            input.rule == AccessRule::Protected(CompositeRequirement::BasicRequirement(BasicRequirement::Require(b.clone())))
+        })
+    });
+    let (kind, same) = match &outcome {
+        Ok(None) => ("none", 1),
+        Ok(Some(bs)) => ("some", (bs.iter().map(|b| b.0 .0).collect::<Vec<_>>() == input) as u8),
+        Err(_) => ("err", 1),
+    };
+    format!("{} {} {} {} {}", kind, puts, (!asserted.is_empty()) as u8, rule_ok as u8, same)
+}
+
 /// authzone_run <kind rule|amount> <rk 0 NF|1 Resource> <rr> <ri> <amount attos> <dcp_some> <dcp> <gck> <gca> <g zone|-1>
 ///              <n zones> { <parent zone|-1> <sim res> <impl res> <impl id> <n proofs> {<res> <amount> <id>}* }*
 /// Zone 0 is the actor's own auth zone. Resources: 0 XRD, 1 ACCOUNT_OWNER_BADGE, 5 PACKAGE_OF_DIRECT_CALLER, 6 GLOBAL_CALLER,
@@ -1079,6 +1175,7 @@ fn auth_run(a: &[&str]) -> String {
 fn run(a: &[&str]) -> String {
     match a[0] {
         "auth_run" => auth_run(&a[1..]),
+        "account_batch" => account_batch(&a[1..]),
         "account_run" => account_run(&a[1..]),
         "intent_tree" => intent_tree::run(&a[1..]),
         "authzone_run" => authzone_run(&a[1..]),
